@@ -198,17 +198,38 @@ def _exact_point(rng, scale, ref, nrm, tang, off=None):
     return [ref[j] + k1 * tang[0][j] + k2 * tang[1][j] + off * nrm[j] for j in range(3)]
 
 
-def _point(rng, scale, plane):
+def _is_axis(nrm):
+    return sorted(abs(x) for x in nrm) == [0.0, 0.0, 1.0]
+
+
+def _tiny_point(rng, scale, plane, delta):
+    """a point within a few `delta` (about 1e-9 * scale) of an exact axis-normal plane, at a unit-size position:
+    every coordinate is a multiple of delta below 2^4 * scale, so all of the code's arithmetic on it is exact"""
     ref, nrm, tang = plane
+    k1, k2 = rng.randint(-4, 4) / 2 * scale, rng.randint(-4, 4) / 2 * scale
+    off = rng.choice([-3, -2, -1, -1, 0, 1, 1, 2, 3]) * delta
+    o1, o2 = rng.randint(-3, 3) * delta, rng.randint(-3, 3) * delta
+    return [ref[j] + (k1 + o1) * tang[0][j] + (k2 + o2) * tang[1][j] + off * nrm[j] for j in range(3)]
+
+
+def _point(rng, scale, plane, tiny=None):
+    ref, nrm, tang = plane
+    if tiny is not None and rng.random() < 0.8:
+        return _tiny_point(rng, scale, plane, tiny)
     if tang is not None and rng.random() < 0.6:
         return _exact_point(rng, scale, ref, nrm, tang)
     return [x * scale for x in grid_vec(rng)]
 
 
-def _segment(rng, scale, plane):
-    a = _point(rng, scale, plane)
+def _segment(rng, scale, plane, tiny=None):
+    a = _point(rng, scale, plane, tiny)
     u = rng.random()
-    if u < 0.25:
+    if tiny is not None and u < 0.7:
+        # a short segment (length about 1e-9 * scale) next to a, across / beside / inside the plane
+        ref, nrm, tang = plane
+        d = [rng.randint(-4, 4) * tiny for _ in range(3)]
+        b = [a[j] + d[0] * nrm[j] + d[1] * tang[0][j] + d[2] * tang[1][j] for j in range(3)]
+    elif u < 0.25:
         # axis-parallel: one or two coordinates differ, the others are equal
         b = list(a)
         for j in rng.sample(range(3), rng.choice([1, 1, 2])):
@@ -216,28 +237,45 @@ def _segment(rng, scale, plane):
     elif u < 0.3:
         b = list(a)  # zero-length segment
     else:
-        b = _point(rng, scale, plane)
+        b = _point(rng, scale, plane, tiny)
     return a, b
+
+
+def _scale(rng, tier):
+    """power-of-two scale; the quick tier also gets a share of extreme ones (absolute tolerances in the code under
+    test only bite far from unit size)"""
+    if tier == "thorough":
+        return 2.0 ** rng.randint(-30, 30)
+    if rng.random() < 0.15:
+        return 2.0 ** rng.choice([-30, -28, -26, -22, 20, 25, 30])
+    return 2.0 ** rng.randint(-10, 10)
 
 
 def gen_cases(rng, n, tier):
     cases = []
     for _ in range(n):
         u = rng.random()
-        scale = 2.0 ** rng.randint(-10, 10) if tier != "thorough" else 2.0 ** rng.randint(-30, 30)
+        scale = _scale(rng, tier)
         exact = rng.random() < 0.5
         plane = _exact_plane(rng, scale) if exact else _generic_plane(rng, scale)
         base = {"exact": exact, "scale": scale, "ref": plane[0], "normal": plane[1]}
         tag = "_exact" if exact else "_generic"
+        # tiny features at unit-size positions (exact arithmetic needs an axis normal)
+        tiny = scale * 2.0 ** -rng.randint(26, 32) if exact and _is_axis(plane[1]) and rng.random() < 0.4 else None
+        if tiny is not None:
+            tag += "_tiny"
         if u < 0.4:
-            segs = [_segment(rng, scale, plane) for _ in range(rng.choice([0, 1, 1, 2, 3, 4, 6]))]
+            segs = [_segment(rng, scale, plane, tiny) for _ in range(rng.choice([0, 1, 1, 2, 3, 4, 6]))]
             cases.append(dict(base, kind="segments" + tag, a=[s[0] for s in segs], b=[s[1] for s in segs]))
         elif u < 0.6:
             k = rng.choice([0, 1, 1, 2, 3, 5])
-            pts = [_point(rng, scale, plane) for _ in range(k)]
+            pts = [_point(rng, scale, plane, tiny) for _ in range(k)]
             rays = []
             for _ in range(k):
-                if exact and rng.random() < 0.3:
+                if rng.random() < 0.2:
+                    # a very short direction vector (about 1e-9 * scale): the line is as well defined as any other
+                    rays.append([x * scale * 2.0 ** -rng.randint(26, 34) for x in grid_vec(rng, -3, 3, 1)])
+                elif exact and rng.random() < 0.3:
                     t = plane[2]
                     k1, k2 = rng.randint(-3, 3), rng.randint(-3, 3)
                     rays.append([(k1 * t[0][j] + k2 * t[1][j]) * scale for j in range(3)])  # parallel to the plane (or zero)
@@ -250,7 +288,7 @@ def gen_cases(rng, n, tier):
             cases.append(dict(base, kind="lines" + tag, pts=pts, rays=rays))
         elif u < 0.85:
             k = rng.choice([0, 1, 2, 2, 3, 4, 5, 7])
-            v = [_point(rng, scale, plane) for _ in range(k)]
+            v = [_point(rng, scale, plane, tiny) for _ in range(k)]
             if k >= 2 and rng.random() < 0.15:
                 v[rng.randrange(1, k)] = list(v[0])  # repeated vertex
             cases.append(dict(base, kind="polyline" + tag, v=v, closed=rng.random() < 0.5))
@@ -272,6 +310,8 @@ def gen_cases(rng, n, tier):
                         pop = [start[j] + rng.randint(-2, 2) * segv[j] for j in range(3)]  # ... and inside the plane
                 else:
                     segv = [x * scale for x in grid_vec(rng)]
+                    if rng.random() < 0.2:
+                        segv = [x * 2.0 ** -rng.randint(26, 32) for x in segv]  # a very short segment
                     if w < 0.4:
                         pop = list(start) if rng.random() < 0.5 else [start[j] + segv[j] for j in range(3)]  # t = 0 / t = 1
                 rows.append((start, segv, pop, nrm))
@@ -477,7 +517,8 @@ def oracle(c, o):
         for i in range(k):
             pt, ray = _F(c["pts"][i]), _F(c["rays"][i])
             den = _dot(ray, nrm)
-            if not (exact or abs(den) > band):
+            # the rounding error of ray.normal is relative to the length of the ray, not to the positions
+            if not (exact or abs(den) > Fr(1, 10 ** 6) * max(abs(x) for x in ray)):
                 continue
             single, srow, sval = o["single"][i], o["st_rows"][i], o["st_valid"][i]
             mag = max([scale] + [abs(x) for x in pt + ray + ref])
